@@ -309,7 +309,14 @@ def body(env, cfg):
             c.split([x])
         except (ValueError, AssertionError):
             pass
-        c.split()
+        # the pieces are curves of their own: changing them (as Projection / Intersection do with clean()) leaves the operand alone
+        for pieces in (c.split(), c.split([]), c.split([lo, hi])):
+            for pc in pieces:
+                env.holds("split: a piece is not the operand itself", pc is not c)
+                if pc.knotvector[0] != pc.knotvector[-1]:
+                    pc.degree_increase(1)
+                pc.ctrlpoints = [3 * pt for pt in pc.ctrlpoints]
+                pc.knotvector.shift(1)
     elif op == "fraction":
         num, den = c.fraction()
         if hasattr(num, "ctrlpoints"):
